@@ -31,11 +31,11 @@ ALL_OPS = REDUCTIONS + ROW_OPS + SELECT_OPS + TRANSFORMS
 NUMERIC_ONLY = {"sum", "mean", "var", "std", "median", "cumsum", "rolling_sum", "rolling_mean", "ema", "T:sum", "T:mean"}
 KEY_DTYPES = ["i64", "f64", "str", "bool", "M8ns"]
 VAL_DTYPES = list(VDT)
-KEY_CONTAINERS = ["ndarray", "ndarray_strided", "pd_series", "pd_series_indexed", "pd_series_arrow", "pd_index", "pd_categorical", "pl_series", "pa_array",
+KEY_CONTAINERS = ["ndarray", "ndarray_strided", "pd_series", "pd_series_indexed", "pd_series_arrow", "pd_index", "pd_index_arrow", "pd_categorical", "pl_series", "pa_array",
                   "pa_chunked", "pa_dictionary", "list"]
-VAL_CONTAINERS = ["ndarray", "ndarray_strided", "pd_series", "pd_series_indexed", "pd_series_arrow", "pd_series_arrow_chunked", "pd_index", "pl_series",
+VAL_CONTAINERS = ["ndarray", "ndarray_strided", "pd_series", "pd_series_indexed", "pd_series_arrow", "pd_series_arrow_chunked", "pd_index", "pd_index_arrow", "pl_series",
                   "pa_array", "pa_chunked", "frame_col", "pl_frame_col"]
-NULLABLE_ONLY = {"pd_series_arrow", "pd_series_arrow_chunked", "pl_series", "pa_array", "pa_chunked", "pl_frame_col"}
+NULLABLE_ONLY = {"pd_index_arrow", "pd_series_arrow", "pd_series_arrow_chunked", "pl_series", "pa_array", "pa_chunked", "pl_frame_col"}
 STR = ["ka", "kb", "kc", "kd", "ke"]
 TEMPORAL = {k for k in VDT if k[0] in "Mm"}
 INTS = {"i8", "i16", "i32", "i64", "u8", "u16", "u32", "u64"}
